@@ -18,6 +18,7 @@
 package sidecar
 
 import (
+	"errors"
 	"fmt"
 	"net/http"
 	"net/url"
@@ -105,7 +106,7 @@ func (p *Proxy) ServeHTTP(w http.ResponseWriter, r *http.Request) {
 	defer func() {
 		abort := false
 		if scrapErr != nil {
-			p.log.Errorf(scrapErr.Error())
+			p.log.Error(scrapErr.Error())
 			if forwarded.n > 0 {
 				// status 200 and a part of the body are already sent, the status code
 				// can not be changed any more: abort the response, otherwise prometheus
@@ -118,9 +119,10 @@ func (p *Proxy) ServeHTTP(w http.ResponseWriter, r *http.Request) {
 				tar.LastScrapeStatistics = scrape.NewStatisticsSeriesResult()
 			}
 		} else if stopReason != "" {
-			p.log.Warnf(stopReason)
+			p.log.Warn(stopReason)
 			w.WriteHeader(http.StatusBadRequest)
-			scrapErr = fmt.Errorf(stopReason)
+			// the reason is text typed by an operator, not a format
+			scrapErr = errors.New(stopReason)
 		}
 
 		if tar != nil {
